@@ -446,6 +446,135 @@ def generate(rng, tier):
         for _k in range(min(n, 300)):
             raws += list(rng.choice(TINY_RAWS) if rng.random() < pz else raws_for(rng.random()))
         cs.append(seq_case(rng.randrange(2 ** 32), [o], n + 2, ("edge-stream", name), state_raws=raws))
+    # I. histories in which the SAME limits / domain / envelope are used with DIFFERENT user functions (and the same function with different
+    #    limits): anything a sampler remembers about an earlier request (end values, envelopes, buffers keyed on the limits) shows up as a
+    #    wrong answer of a later call.  Inverse transform: CDFs of laws restricted to a window (cdf(xMin) > 0, cdf(xMax) < 1: valid exactly when
+    #    the deviate lies between the end values, so the generator state is prescribed), mixed with proper CDFs on the same window.
+    def cdf_family(a, b):
+        w = b - a; fam = []
+        fam.append(("/ - x " + C(a) + " " + C(w), lambda x: (x - a) / w))                                            # uniform on the window: end values 0, 1
+        p = rng.choice([0.5, 2.0, 3.0])
+        fam.append(("pow / - x " + C(a) + " " + C(w) + " " + hx(p), lambda x: _safe(math.pow, (x - a) / w, p)))     # power law on the window
+        for _k in range(2):
+            m = w * rng.choice([0.2, 0.4, 1.0, 3.0]); x0 = a - w * rng.choice([0.0, 0.05, 0.3, 1.0])
+            fam.append(("- " + C(1) + " exp neg / - x " + C(x0) + " " + C(m), (lambda x0, m: lambda x: 1.0 - math.exp(-((x - x0) / m)))(x0, m)))   # exponential from x0 <= a
+            mu = a + w * rng.choice([-0.3, 0.1, 0.5, 0.8, 1.2]); sd = w * rng.choice([0.15, 0.4, 1.0, 2.5])
+            fam.append(("* " + C(0.5) + " + " + C(1) + " erf / - x " + C(mu) + " " + C(SQ2 * sd), (lambda mu, sd: lambda x: 0.5 * (1.0 + math.erf(((x - mu) / (SQ2 * sd)))))(mu, sd)))
+            fam.append(("* " + C(0.5) + " + " + C(1) + " tanh / - x " + C(mu) + " " + C(2.0 * sd), (lambda mu, sd: lambda x: 0.5 * (1.0 + math.tanh(((x - mu) / (2.0 * sd)))))(mu, sd)))
+        return fam
+    def window(): return rng.choice([(2.0, 10.0), (0.0, 1.0), (-3.0, 4.0), (-50.0, 50.0), (1e-3, 5e-3), (1e5, 3e5), (-2e-6, -1e-6), (0.0, 40.0)])
+    for _ in range(R(220, 3000)):
+        K = rng.randint(2, 6); win = window(); fam = cdf_family(*win); ops = []; raws = []; last_fx = None
+        for j in range(K):
+            if rng.random() < 0.15: win = window(); fam = cdf_family(*win)              # a call with other limits in between
+            r = rng.random()
+            if r < 0.12:                                                                   # another sampler in between (one uniform)
+                ops.append(rng.choice([op_uniform, op_gauss])()[0]); raws += list(raws_for(rng.random())); continue
+            fx, F = rng.choice(fam)
+            if fx == last_fx and rng.random() < 0.8: fx, F = rng.choice(fam)
+            last_fx = fx
+            a, b = win
+            Fa, Fb = feval(fparse(fx.split(), 0)[0], a), feval(fparse(fx.split(), 0)[0], b)
+            if not (Fb - Fa > 1e-6): continue
+            outside = (j == K - 1 and rng.random() < 0.2 and (Fa > 0.02 or Fb < 0.98))    # a deviate beyond the end values: the guard of Find_Root
+            if outside:
+                cand = ([Fa * rng.choice([0.1, 0.5, 0.98])] if Fa > 0.02 else []) + ([Fb + (1.0 - Fb) * rng.choice([0.02, 0.5, 0.9])] if Fb < 0.98 else [])
+                u = rng.choice(cand)
+            else:
+                u = Fa + (Fb - Fa) * rng.choice([rng.uniform(0.02, 0.98), rng.uniform(0.02, 0.98), 0.02, 0.98, 0.5])
+            if rng.random() < 0.15: a, b = b, a
+            ops.append(f"invt {hx(a)} {hx(b)} {fx}"); raws += list(raws_for(u))
+        if len([o for o in ops if o.startswith("invt")]) >= 2:
+            cs.append(seq_case(rng.randrange(2 ** 32), ops, len(ops) + 2, ("history", "same-limits", "invt"), state_raws=raws))
+    # rejection / Metropolis: identical limits, envelope, widths and (sample, thinning, burn_in), different densities (all <= 2 on the box)
+    def dens_family(a, b):
+        w = b - a; t = "/ - x " + C(a) + " " + C(w)
+        return ["* " + C(2) + " " + t, "- " + C(2) + " * " + C(2) + " " + t, C(1.0), "* " + C(1.5) + " sin * " + C(math.pi) + " " + t, "+ " + C(0.25) + " * " + t + " " + t,
+                "exp neg * " + C(3) + " " + t, "* " + C(2) + " step - " + t + " " + C(0.5)]
+    def dens2_family(a, b, c, d):
+        tx = "/ - x " + C(a) + " " + C(b - a); ty = "/ - y " + C(c) + " " + C(d - c)
+        return ["+ " + tx + " " + ty, C(1.0), "* " + C(2) + " * " + tx + " " + ty, "- " + C(2) + " + " + tx + " " + ty, "exp neg + " + tx + " * " + C(2) + " " + ty]
+    for _ in range(R(160, 2500)):
+        kind = rng.choice(["rej", "rej2", "metro", "metro2"]); K = rng.randint(2, 4); ops = []; n = 0
+        a, b = rng.choice([(0.0, 1.0), (-2.0, 2.5), (10.0, 13.0), (-1e3, -999.0)]); c, d = rng.choice([(0.0, 1.0), (-5.0, 3.0)])
+        ym = rng.choice([2.0, 2.0, 2.02, 3.0]); s, th, bn = triple(30); sg = (b - a) * rng.choice([0.1, 0.5, 1.0]); sg2 = (d - c) * rng.choice([0.2, 1.0])
+        fam = dens_family(a, b) if kind in ("rej", "metro") else dens2_family(a, b, c, d)
+        for j in range(K):
+            fx = rng.choice(fam)
+            if rng.random() < 0.15 and kind in ("metro", "metro2"): s, th, bn = triple(30)          # larger-then-smaller requests on the same domain
+            if kind == "rej": ops.append(f"rej {hx(a)} {hx(b)} {hx(ym)} {fx}"); n += 2 * 400
+            elif kind == "rej2": ops.append(f"rej2 {hx(a)} {hx(b)} {hx(c)} {hx(d)} {hx(ym)} {fx}"); n += 3 * 400
+            elif kind == "metro": ops.append(f"metro {hx(sg)} {s} {th} {bn} {flist([a, b] if rng.random() < 0.85 else [])} {fx}"); n += 1 + 2 * imax32(s, th, bn)
+            else: ops.append(f"metro2 {hx(sg)} {hx(sg2)} {s} {th} {bn} {flist([a, b, c, d] if rng.random() < 0.85 else [])} {fx}"); n += 2 + 3 * imax32(s, th, bn)
+        cs.append(seq_case(seed(), ops, n + 2, ("history", "same-limits", kind)))
+    # J. RE-ENTRANT user functions and two generators (seqn lines): the density / CDF handed to a sampler makes a sampler call itself at every
+    #    evaluation -- on the generator the outer sampler is working on (noisy / pseudo-marginal density) or on a second generator (nuisance
+    #    parameter marginalised with an inner chain) -- and uses the reduced result as z; calls on the two generators interleaved (onaux).
+    GAUSS1 = T1["gauss"][0]
+    def noisy(fx, amp=0.05): return "* " + fx + " + " + C(1) + " * " + C(amp) + " tanh z"
+    def inner_op(depth=0):
+        """(op text, bound on the uniforms of one call (current generator, other generator))"""
+        k = rng.choice(["uniform", "uniform", "gauss", "metro", "metro", "metro2", "poisson", "rej", "invt", "onaux", "nest"])
+        if k == "nest" and depth >= 1: k = "metro"
+        if k == "uniform": return f"uniform {hx(0.0)} {hx(1.0)}", (1, 0)
+        if k == "gauss": return f"gauss {hx(0.0)} {hx(1.0)}", (1, 0)
+        if k == "metro":
+            s, th, b = rng.choice([(5, 2, 3), (1, 1, 0), (3, 1, 2), (0, 2, 1), (4, 3, 1), (2, 1, 5)])
+            dom = rng.choice([[], [], [-2.0, 2.5]])
+            return f"metro {hx(rng.choice([0.5, 1.0]))} {s} {th} {b} {flist(dom)} {GAUSS1}", (1 + 2 * imax32(s, th, b), 0)
+        if k == "metro2":
+            s, th, b = rng.choice([(2, 1, 1), (1, 2, 1), (3, 1, 0)])
+            return f"metro2 {hx(1.0)} {hx(0.5)} {s} {th} {b} 0 {T2['g2'][0]}", (2 + 3 * imax32(s, th, b), 0)
+        if k == "poisson": return f"poisson {hx(rng.choice([0.3, 2.0, 6.0]))}", (60, 0)
+        if k == "rej": return f"rej {hx(0.0)} {hx(1.0)} {hx(2.0)} {T1['tri'][0]}", (2 * 60, 0)
+        if k == "invt": return f"invt {hx(0.0)} {hx(1.0)} {TC['tri'][0]}", (1, 0)
+        if k == "onaux":
+            o, (p, q) = inner_op(depth + 1); return "onaux " + o, (q, p)
+        o, nb = nested_op(depth + 1, small=True); return o, nb
+    def nested_op(depth=0, small=False):
+        while True:
+            o, (p, q) = nested_op1(depth, small)
+            if p + q <= (12000 if depth == 0 else 400): return o, (p, q)
+    def nested_op1(depth=0, small=False):
+        """nest <same|other> <red> <inner> <outer>: (text, bound (current, other))"""
+        same = rng.random() < 0.6; red = rng.choice(["last", "last", "mean", "mean", "count", "none"])
+        io, (ip, iq) = inner_op(depth)
+        kind = rng.choice(["metro", "metro", "metro2", "metro2", "rej", "rej2", "invt"]) if not small else rng.choice(["metro", "metro2", "rej"])
+        if kind in ("metro", "metro2"):
+            while True:
+                s, th, b = rng.choice([(rng.randint(0, 12), rng.randint(1, 4), rng.randint(0, 9)), (50, 3, 7), (0, 4, 9), (1, 1, 0), (17, 2, 5), (6, 1, 0)])
+                if small: s, th, b = rng.choice([(2, 1, 1), (1, 2, 0), (3, 1, 0)])
+                if (b + th * s) * (ip + iq + 1) <= 4000: break
+            im = imax32(s, th, b)
+            if kind == "metro":
+                fx, dom = rng.choice([(GAUSS1, []), (GAUSS1, [-2.0, 2.5]), (T1["bimodal"][0], []), (T1["tri"][0], [0.0, 1.0]), (T1["expo8"][0], [0.0, 8.0])])
+                o = f"metro {hx(rng.choice([0.3, 0.8, 2.0]))} {s} {th} {b} {flist(dom)} {noisy(fx)}"; own = 1 + 2 * im
+            else:
+                fx, dom = rng.choice([(T2["g2"][0], []), (T2["g2"][0], [-1.0, 2.0, -2.0, 1.0]), (T2["xpy"][0], [0.0, 1.0, 0.0, 1.0])])
+                o = f"metro2 {hx(rng.choice([0.7, 1.5]))} {hx(rng.choice([0.4, 1.0]))} {s} {th} {b} {flist(dom)} {noisy(fx)}"; own = 2 + 3 * im
+            nev = 2 * im
+        elif kind == "rej":
+            nm = rng.choice(["tri", "tgauss", "sin"]); fx, _, (a, b) = T1[nm]; top = 2.0 if nm == "tri" else 1.0
+            o = f"rej {hx(a)} {hx(b)} {hx(top * rng.choice([1.06, 1.5]))} {noisy(fx)}"; nev = 80; own = 2 * nev
+        elif kind == "rej2":
+            fx, _, _, box, _, _ = T2["xpy"]
+            o = f"rej2 {' '.join(hx(v) for v in box)} {hx(2.0 * rng.choice([1.06, 2.0]))} {noisy(fx)}"; nev = 120; own = 3 * nev
+        else:
+            nm = rng.choice(sorted(TC)); fx, _, a, b = TC[nm]
+            o = f"invt {hx(a)} {hx(b)} + {fx} * {C(1e-9)} tanh z"; nev = 200; own = 1
+        txt = f"nest {'same' if same else 'other'} {red} {io} {o}"
+        return txt, ((own + nev * ip, nev * iq) if same else (own + nev * iq, nev * ip))
+    for _ in range(R(260, 4000)):
+        K = rng.choice([1, 1, 2, 2, 3]); ops = []; nm = na = 0
+        for j in range(K):
+            r = rng.random()
+            if r < 0.65: o, (p, q) = nested_op()
+            else:
+                name, f = rng.choice(singles)
+                o, p = f(20.0) if name == "poisson" else (f(kind="tight") if name in ("rej", "rej2") else f()); q = 0
+            if rng.random() < 0.3: o = "onaux " + o; p, q = q, p
+            ops.append(o); nm += p; na += q
+        cs.append(seqn_case(seed(), seed(), ops, nm + 4, na + 4, ("reentrant" if any("nest" in o for o in ops) else "two-generators",)))
     # F. (sample, thinning, burn_in) grid on 0..200, thinning >= 1, 1D/2D, bounded/unbounded: count, consumption, domain, determinism
     if big:
         gs = [0, 1, 2, 3, 5, 10, 37, 100, 200]; gt = [1, 2, 3, 4, 5, 7, 10, 16, 50, 99, 100, 200]; gb = [0, 1, 2, 3, 4, 5, 6, 7, 9, 10, 11, 15, 16, 17, 49, 50, 51, 99, 100, 101, 150, 199, 200]
@@ -852,11 +981,154 @@ def metro_steps(name, d2, us, k0, sigmas, burn, dom, e, pts):
     return out
 
 
+# ------------------------------------------------------------------ seqn: re-entrant user functions, two generators
+def const_cons(o):
+    """uniforms one call of o takes from (the generator it is made on, the other generator), when that is a constant of the request"""
+    n = o[0]
+    if n in ("uniform", "gauss", "invt"): return (1, 0)
+    if n == "metro": return (1 + 2 * imax32(o[2], o[3], o[4]), 0) if len(o[5]) in (0, 2) else None
+    if n == "metro2": return (2 + 3 * imax32(o[3], o[4], o[5]), 0) if len(o[6]) in (0, 4) else None
+    if n == "onaux":
+        c = const_cons(o[1]); return (c[1], c[0]) if c else None
+    return None
+
+
+def has_nest(o):
+    return o[0] == "nest" or (o[0] == "onaux" and has_nest(o[1]))
+
+
+def seqn_predicates(c, io):
+    """The clauses that can be decided without following the arithmetic of the chain: number of samples, containment, and the
+    bookkeeping of the generators -- every canonical draw of the outer sampler and of the calls made by its user function comes from the
+    generator it belongs to, in the order of the calls: uniforms consumed from each generator, the draws made before the first
+    evaluations of the user function, the states left behind."""
+    seed, state, us, ops, seed2, vs = parse_seq(c.line, True)
+    if io.startswith("EXIT"): return []          # guards inside nested calls: decided by the comparison with the model
+    v = parse_vals(io); out = []
+    tail_n = 2 + 1 + 1      # cons, cons_aux, det, nev  | npos, positions | next, next_aux
+    pos = 0
+    def take(m):
+        nonlocal pos
+        r = v[pos:pos + m]; pos += m
+        if len(r) != m: raise IndexError
+        return r
+    first_expected = []; first_done = False      # expected draws before the first evaluations of the first re-entrant function
+    tot = [0, 0]; known = True
+    def add(gen, cc):
+        nonlocal known
+        if cc is None: known = False
+        else: tot[gen] += cc[0]; tot[1 - gen] += cc[1]
+    def walk(o, gen, nest=None):
+        """consumes the output of one call made on generator gen; returns the uniforms (on gen, on the other) or None"""
+        nonlocal first_done
+        n = o[0]
+        if n == "onaux":
+            r = walk(o[1], 1 - gen, None); return (r[1], r[0]) if r else None
+        if n == "nest":
+            _, same, red, inner, outer = o
+            before = (tot[0] + tot[1]) if known else None
+            own = walk(outer, gen, nest=o)
+            nev = take(1)[0]
+            ci = const_cons(inner); kind = outer[0]
+            if kind in ("metro", "metro2"):
+                d2 = kind == "metro2"; sample, thin, burn, dom = (outer[3:7] if d2 else outer[2:6]); im = imax32(sample, thin, burn)
+                if len(dom) in ((0, 4) if d2 else (0, 2)):
+                    if nev % 2 or nev > 2 * im or (not dom and nev != 2 * im):
+                        out.append((kind + ":evaluations", f"{kind}: the target density was evaluated {nev} times in {im} steps ({'un' if not dom else ''}bounded domain: two evaluations per step with a candidate inside the domain)"))
+            elif kind in ("rej", "rej2"):
+                own = ((2 if kind == "rej" else 3) * nev, 0)       # one evaluation per trial
+                if nev < 1: out.append((kind + ":evaluations", f"{kind} returned a point without evaluating the density"))
+            elif kind == "invt" and nev < 2: out.append(("invt:evaluations", "the CDF was evaluated fewer than two times"))
+            # draws made (both generators together) when the user function is entered, for the first evaluations
+            if not first_done:
+                first_done = True
+                if before is not None and ci is not None and not has_nest(inner):
+                    cin = ci[0] + ci[1]; m = min(6, nev); exp = None
+                    if kind == "metro" and nev == 2 * im: exp = [before + 1 + (j // 2) * (2 + 2 * cin) + 1 + (j % 2) * cin for j in range(m)]
+                    elif kind == "metro2" and nev == 2 * im: exp = [before + 2 + (j // 2) * (3 + 2 * cin) + 2 + (j % 2) * cin for j in range(m)]
+                    elif kind == "rej": exp = [before + j * (2 + cin) + 2 for j in range(m)]
+                    elif kind == "rej2": exp = [before + j * (3 + cin) + 3 for j in range(m)]
+                    elif kind == "invt": exp = [before + 1 + j * cin for j in range(m)]
+                    if exp is not None: first_expected.append((kind, exp))
+            if own is None or ci is None: return None
+            return (own[0] + nev * (ci[0] if same else ci[1]), own[1] + nev * (ci[1] if same else ci[0]))
+        if n == "uniform":
+            x = take(1)[0]; a, b = o[1], o[2]
+            if a <= b and not (a <= x <= b): out.append(("uniform:range", f"Sample_Uniform({a},{b}) = {x!r} outside [a,b]"))
+            return (1, 0)
+        if n == "gauss": take(1); return (1, 0)
+        if n == "poisson":
+            k = take(1)[0]
+            if not isinstance(k, int) or k < 0: out.append(("poisson:support", f"Sample_Poisson({o[1]}) = {k}")); return None
+            return (k + 1, 0)
+        if n == "poissonv":
+            m = take(1)[0]
+            if m != len(o[1]): out.append(("poisson:count", "vector overload returned a different number of samples")); raise IndexError
+            ks = take(m)
+            if any((not isinstance(k, int)) or k < 0 for k in ks): out.append(("poisson:support", f"Sample_Poisson = {ks}")); return None
+            return (sum(k + 1 for k in ks), 0)
+        if n == "invt":
+            x = take(1)[0]; lo, hi = min(o[1], o[2]), max(o[1], o[2])
+            if not (lo <= x <= hi): out.append(("invt:range", f"Inverse_Transform_Sampling returned {x!r} outside [{lo},{hi}]"))
+            return (1, 0)
+        if n == "rej":
+            x = take(1)[0]
+            if not (min(o[1], o[2]) <= x <= max(o[1], o[2])): out.append(("rej:domain", f"rej: returned point {x!r} outside the box"))
+            return None
+        if n == "rej2":
+            x, y = take(2)
+            if not (min(o[1], o[2]) <= x <= max(o[1], o[2]) and min(o[3], o[4]) <= y <= max(o[3], o[4])): out.append(("rej2:domain", f"rej2: returned point {(x, y)} outside the box"))
+            return None
+        if n in ("metro", "metro2"):
+            d2 = n == "metro2"
+            if d2: s1, s2, sample, thin, burn, dom, e = o[1:]
+            else: s1, sample, thin, burn, dom, e = o[1:]
+            cnt = take(1)[0]
+            if not isinstance(cnt, int) or cnt < 0: raise IndexError
+            pts = take(cnt * (2 if d2 else 1))
+            what = n + (" with a re-entrant density" if nest else "")
+            if thin >= 1 and burn + thin * sample < 2 ** 32 and cnt != sample:
+                out.append((n + ":count", f"{what}: {cnt} samples returned for (sample, thinning, burn_in) = ({sample}, {thin}, {burn})"))
+            if dom and len(dom) == (4 if d2 else 2):
+                if d2: bad = [(x, y) for x, y in zip(pts[0::2], pts[1::2]) if not (dom[0] <= x <= dom[1] and dom[2] <= y <= dom[3])]
+                else: bad = [x for x in pts if not (dom[0] <= x <= dom[1])]
+                if bad: out.append((n + ":domain", f"{what}: sample {bad[0]} outside the bounded domain {dom}"))
+            return const_cons(o)
+        raise ValueError(n)
+    try:
+        for o in ops: add(0, walk(o, 0))
+        cons, cons2, det, nev_all, npos = take(5)
+        firsts = take(npos)
+        nxt, nxt2 = take(2)
+        if pos != len(v): raise IndexError
+    except (IndexError, ValueError, TypeError):
+        return out or [("seqn:shape", "the output does not have the shape of the requested calls")]
+    names = "reentrant" if any(has_nest(o) for o in ops) else "two-generators"
+    if det != 1: out.append((names + ":determinism", "two runs from equal generator states differ in output or in the states left behind"))
+    if cons < 0 or cons2 < 0:
+        out.append((names + ":consumption", "the state of a generator after the calls is not reachable from its initial state by whole canonical draws")); return out
+    if known and not out and (cons, cons2) != (tot[0], tot[1]):
+        out.append((names + ":consumption", f"({cons}, {cons2}) uniforms consumed from (the generator of the calls, the other generator); the calls made -- the samplers' own draws and "
+                    f"those of the calls inside their user functions -- account for ({tot[0]}, {tot[1]})"))
+    for kind, exp in first_expected:
+        got = firsts[:len(exp)]
+        if got != exp:
+            out.append((names + ":position", f"{kind}: at the first evaluations of its user function the two generators had made {got} canonical draws; the draws the sampler and the "
+                        f"nested calls have made by then are {exp} (the sampler must draw from the generator passed to it, so that a call inside the user function sees its state)"))
+    for sd, st_, cn, nx, which in ((seed, state, cons, nxt, "the generator of the calls"), (seed2, None, cons2, nxt2, "the other generator")):
+        g = MT(sd, st_ or None)
+        for _ in range(2 * cn): g.raw()
+        r = g.raw()
+        if r != nx: out.append((names + ":state", f"next raw output of {which} {nx}, MT19937 advanced by {cn} canonical draws gives {r}"))
+    return out
+
+
 def predicates(c, io):
     out = []
     if io.startswith(("CRASH", "SANITIZER", "TIMEOUT", "HARNESSERR")): return out        # reported generically
     kind = c.line.split(None, 1)[0]
     if kind == "law": return law_predicates(c, io)
+    if kind == "seqn": return seqn_predicates(c, io)
     if kind == "mgrid":
         t = c.line.split(); sample, thin, burn, dim, bounded = (int(x) for x in t[2:7])
         if io.startswith("EXIT"): return [("mgrid:exit", "Sample_Metropolis terminated the process")]
